@@ -246,15 +246,17 @@ fn main() {
                     sent[3] += 1;
                 }
                 4 => { // transactions: sizes around and above MAX_TRANSACTION_SIZE, bursts to fill a slice
-                    let burst = if rng.chance(1, 6) { 80 } else { 1 };
+                    // bursts that fill a slice with big transactions, or with thousands of tiny ones
+                    let tiny = rng.chance(1, 12);
+                    let burst = if tiny { 3000 } else if rng.chance(1, 6) { 80 } else { 1 };
                     for _ in 0..burst {
-                        let sz = *rng.pick(&[0usize, 1, 511, 512, 513, 520, 1000, 1400, 1484]);
+                        let sz = if tiny { rng.below(9) as usize } else { *rng.pick(&[0usize, 1, 511, 512, 513, 520, 1000, 1400, 1484]) };
                         let b = wincode::serialize(&Transaction(rng.bytes(sz))).expect("ser");
                         if b.len() <= 1500 { let _ = sock.send_to(&b, localhost_ip_sockaddr(tx_ports[j])); sent[4] += 1; }
                     }
                 }
-                _ => { // raw garbage to a random interface
-                    let g = { let n_ = rng.range(0, 1500) as usize; rng.bytes(n_) };
+                _ => { // raw garbage to a random interface, sometimes larger than one MTU (up to a jumbo datagram)
+                    let g = { let n_ = if rng.chance(1, 5) { rng.range(1501, 9000) } else { rng.range(0, 1500) } as usize; rng.bytes(n_) };
                     let addr = *rng.pick(&[info.all2all_address, info.disseminator_address, info.repair_requester_address, info.repair_responder_address, localhost_ip_sockaddr(tx_ports[j])]);
                     let _ = sock.send_to(&g, addr);
                     sent[5] += 1;
